@@ -239,7 +239,7 @@ scan_region (const unsigned char *p, size_t n)
 
 /* ------------------------------------------------------------------ interposers */
 static int in_lib;                 /* a library call is running */
-static int ncfe;                   /* compression-function events of the current call */
+static int ncfe, naux;             /* primitive events of the current call */
 static int req_no, fault_at, fault_at2; /* allocator/mapping request counter and fault schedule */
 static int n_wipes;
 static size_t wiped_bytes;
@@ -726,7 +726,7 @@ tramp (void)
 static void
 run_call (void (*fn) (void))
 {
-  ncfe = 0;
+  ncfe = 0; naux = 0;
   req_no = 0; nled = 0; n_wipes = 0; wiped_bytes = 0; leak_free = leak_unmap = 0; bad_free = 0;
   stack_hits = 0;
   snap_statics ();
@@ -811,9 +811,23 @@ static int cfs_on;
 #define MAXCFE 120000
 static struct cfe { char alg[10]; unsigned char il, bl, ol; unsigned char in[128], blk[128], outb[64]; } *cfe;
 typedef void (*sink_t) (const char *, const void *, size_t, const void *, size_t, const void *, size_t);
+/* other primitive facts (bcrypt key expansion): name + three buffers */
+#define MAXAUX 8
+static struct aux { char name[12]; size_t al, bl, cl; unsigned char a[520], b[80], c[80]; } auxe[MAXAUX];
 static void
 cf_sink (const char *ev, const void *a, size_t al, const void *b, size_t bl, const void *c, size_t cl)
 {
+  if (cfs_on && in_lib && !strncmp (ev, "bfkey", 5))
+    {
+      if (naux < MAXAUX && al <= 520 && bl <= 80 && cl <= 80)
+        {
+          struct aux *x = &auxe[naux++];
+          snprintf (x->name, sizeof x->name, "%s", ev);
+          x->al = al; x->bl = bl; x->cl = cl;
+          memcpy (x->a, a, al); memcpy (x->b, b, bl); memcpy (x->c, c, cl);
+        }
+      return;
+    }
   if (!cfs_on || !in_lib || ncfe >= MAXCFE || al > 128 || bl > 128 || cl > 64)
     return;
   struct cfe *x = &cfe[ncfe++];
@@ -835,6 +849,17 @@ emit_cfs (void)
       jstr_codes (cfe[i].blk, cfe[i].bl);
       fprintf (out, ",\"out\":");
       jstr_codes (cfe[i].outb, cfe[i].ol);
+      fprintf (out, "}");
+    }
+  fprintf (out, "],\"aux\":[");
+  for (int i = 0; i < naux; i++)
+    {
+      fprintf (out, "%s{\"n\":\"%s\",\"a\":", i ? "," : "", auxe[i].name);
+      jstr_codes (auxe[i].a, auxe[i].al);
+      fprintf (out, ",\"b\":");
+      jstr_codes (auxe[i].b, auxe[i].bl);
+      fprintf (out, ",\"c\":");
+      jstr_codes (auxe[i].c, auxe[i].cl);
       fprintf (out, "}");
     }
   fprintf (out, "]");
